@@ -211,12 +211,24 @@ def r111(repo, ctx):
             for st in U.walk_no_nested(f):
                 if isinstance(st, ast.Assign) and isinstance(st.targets[0], ast.Name) and isinstance(st.value, ast.Call) and U.call_name(st.value) == 'np.argsort' and st.value.args:
                     a = st.value.args[0]
+                    if st.targets[0].id == '_':
+                        continue        # value discarded
                     if isinstance(a, ast.Subscript) and U.chain(a.value) and U.chain(a.value)[-1] == 'elements':
                         sorts[st.targets[0].id] = (st, a)
                     elif isinstance(a, ast.Attribute) and U.chain(a) and U.chain(a)[-1] == 'elements':
                         sorts[st.targets[0].id] = (st, ast.Subscript(value=a, slice=ast.Slice(lower=None, upper=None, step=None), ctx=ast.Load()))
                     elif isinstance(a, ast.Name):
                         unsorts[st.targets[0].id] = (st, a.id)
+                    elif isinstance(a, ast.Call) and U.call_name(a) == 'np.argsort' and a.args:
+                        # unsort = argsort(argsort(elements[..])): the sort index is anonymous
+                        b = a.args[0]
+                        anon = f'<sort of {st.targets[0].id}>'
+                        if isinstance(b, ast.Subscript) and U.chain(b.value) and U.chain(b.value)[-1] == 'elements':
+                            sorts[anon] = (st, b)
+                            unsorts[st.targets[0].id] = (st, anon)
+                        elif isinstance(b, ast.Attribute) and U.chain(b) and U.chain(b)[-1] == 'elements':
+                            sorts[anon] = (st, ast.Subscript(value=b, slice=ast.Slice(lower=None, upper=None, step=None), ctx=ast.Load()))
+                            unsorts[st.targets[0].id] = (st, anon)
             params_u = {p for p in U.params(f) if p == 'unsortIndices'}
             if not sorts and not params_u:
                 continue
@@ -226,7 +238,7 @@ def r111(repo, ctx):
                 ok_slice = isinstance(sl, ast.Slice) and U.is_const(sl.upper, -1) and (sl.lower is None or U.is_const(sl.lower, 1)) and sl.step is None
                 ctx.check(ok_slice, 'R11.1', path, q, st, f'sort index is argsort(elements{U.src(a)[U.src(a).rindex("["):]}): the VA entry is excluded, reference element {"excluded" if sl.lower is not None else "included"}',
                           f'sort index is taken over the wrong slice of the element list: {U.src(a)}', construct=U.src(st))
-                mine = [u for u, (ust, arg) in unsorts.items() if arg == sname]
+                mine = [u for u, (ust, arg) in unsorts.items() if arg == sname or (arg in sorts and arg.startswith('<') and U.same(sorts[arg][1], a))]
                 ctx.check(len(mine) >= 1, 'R11.1', path, q, st, f'unsort index = argsort({sname})', f'no unsort index argsort({sname}) is derived from this sort index: alphabetical values cannot be converted back',
                           construct=f'{q}: unsort of {sname}')
             for uname, (ust, arg) in unsorts.items():
